@@ -302,7 +302,7 @@ func c12Monitor(c *Ctx) *RuleResult {
 			if !ok || fieldOf(info, be.X) != useCount || exprStr(be.Y) != "0" {
 				continue
 			}
-			if (g.Pos && be.Op == token.EQL) || (!g.Pos && (be.Op == token.GTR || be.Op == token.NEQ)) {
+			if g.Pos && (be.Op == token.EQL || be.Op == token.LEQ) {
 				guardCond = g.Cond
 			}
 		}
@@ -324,7 +324,7 @@ func c12Monitor(c *Ctx) *RuleResult {
 					return true
 				}
 				if a, _ := g.ReachableWithout(guardCond, uc, func(ast.Node) bool { return false }); a {
-					if b, _ := g.ReachableWithout(uc, call, func(m ast.Node) bool { return m == ast.Node(guardCond) }); b {
+					if b, _ := g.ReachableWithout(uc, call, func(m ast.Node) bool { return m == origOf(guardCond) }); b {
 						stale = true
 					}
 				}
@@ -360,32 +360,64 @@ func c12Monitor(c *Ctx) *RuleResult {
 	au := p.Unit("pkg/cleaner", "IdleInvoker.Acquire")
 	{
 		info := au.Info()
-		var loop *ast.ForStmt
+		// a test of the "cleaning in progress" channel against nil, directly or through a local
+		isWakeupTest := func(u *FuncUnit, n ast.Node) bool {
+			e, ok := n.(ast.Expr)
+			if !ok {
+				return false
+			}
+			be, ok := ast.Unparen(e).(*ast.BinaryExpr)
+			if !ok || (be.Op != token.NEQ && be.Op != token.EQL) || !isNilIdent(be.Y) {
+				return false
+			}
+			return fieldOf(u.Info(), resolveLocalAlias(u, be.X)) == wakeup
+		}
+		// functions that test it on all their paths (a wait loop moved into a helper)
+		waiters := mustPass(p.UnitsIn("pkg/cleaner"), func(u *FuncUnit, n ast.Node) bool {
+			if u.Fn == au.Fn {
+				return false
+			}
+			return isWakeupTest(u, n)
+		})
+		var tests []ast.Node
 		ast.Inspect(au.Decl.Body, func(n ast.Node) bool {
-			if f, ok := n.(*ast.ForStmt); ok && f.Cond != nil {
-				if be, ok := ast.Unparen(f.Cond).(*ast.BinaryExpr); ok && be.Op == token.NEQ && fieldOf(info, be.X) == wakeup && isNilIdent(be.Y) {
-					loop = f
+			switch x := n.(type) {
+			case *ast.ForStmt:
+				if x.Cond != nil && isWakeupTest(au, x.Cond) {
+					tests = append(tests, x.Cond)
+				}
+			case *ast.IfStmt:
+				if isWakeupTest(au, x.Cond) {
+					tests = append(tests, x.Cond)
+				}
+			case *ast.CallExpr:
+				if fn := calleeOf(info, x); fn != nil && waiters[fn] {
+					tests = append(tests, x)
 				}
 			}
 			return true
 		})
 		construct := au.Name() + "|wait-for-cleaning"
 		g := NewFuncCFG(info, au.Decl.Body)
-		okW := loop != nil
-		if okW {
+		okW := false
+		for _, t := range tests {
+			all := true
 			for _, w := range FieldWrites([]*FuncUnit{au}, useCount, false) {
-				if !g.Dominates(loop.Cond, w.Node) {
-					okW = false
+				if !g.Dominates(t, w.Node) {
+					all = false
 				}
 			}
 			for _, cs := range CallsTo([]*FuncUnit{au}, cleanFn) {
-				if !g.Dominates(loop.Cond, cs.Node) {
-					okW = false
+				if !g.Dominates(t, cs.Node) {
+					all = false
 				}
+			}
+			if all {
+				okW = true
 			}
 		}
 		if okW {
-			r.ok(construct, posOf(p, au.Decl), "`for i.wakeup != nil` dominates the count test, the clean and the increment")
+			r.ok(construct, posOf(p, au.Decl), "the wait for a cleaning in progress (test of wakeup against nil) dominates the count test, the clean and the increment")
 		} else {
 			r.bad(c.Prop, construct, posOf(p, au.Decl), "Acquire can proceed while a cleaning is still in progress")
 		}
@@ -433,8 +465,8 @@ func deferredCall(u *FuncUnit, call *ast.CallExpr) (*ast.DeferStmt, bool) {
 
 func init() {
 	register(&PropertySpec{
-		ID:    "C12",
-		Level: "other",
+		ID:          "C12",
+		Level:       "other",
 		Explanation: "Decides, on all paths: Acquire/Release pairing (or hand-over to a wrapper whose Close releases); every obtained build directory closed once or handed over; wrapper Close methods discharge everything they own on every path including removal of the per-action directory; the IdleInvoker monitor's shape (clean() lock protocol and channel ordering; clean only under a fresh use-count-zero test; Acquire waits for cleanings, counts itself only after a successful clean; Release decrements first). Mutual exclusion over all interleavings follows from the monitor shape by a standard argument that is not mechanised here.",
 		Assumptions: []string{"BuildDirectory implementations remove what RemoveAll is asked to remove", "the lock model of C14"},
 		Rules:       []RuleFunc{c12Acquire, c12Directories, c12WrapperClose, c12Monitor, c12AcquireFirst},
